@@ -131,9 +131,23 @@ func run(c *core.Ctx) {
 		}
 		c.Add("grammars", int64(n))
 	}
+	if c.Quick() {
+		layerB(c, 240)
+	} else {
+		layerB(c, 6000)
+	}
 	c.States(st.states)
 	c.Transitions(st.transitions)
 	c.Set("conflict_free_grammar_configs", st.conflictFree)
+}
+
+func conflictFree(g *gramenum.Gram, inputs []gramenum.Input) bool {
+	var tbl *lalr.Tables
+	var cerr error
+	if err := core.Guard(func() { tbl, cerr = lalr.Compile(g.ToLalr(inputs), lalr.Options{}) }); err != nil {
+		return false
+	}
+	return cerr == nil && tbl.SR == 0 && tbl.RR == 0
 }
 
 func layerA(c *core.Ctx, g *gramenum.Gram, T, L int, st *stats) {
